@@ -358,7 +358,12 @@ class Interp:
                 return {"True": True, "False": False, "None": None}[e.id]
             return self.global_name(e.id, m)
         if isinstance(e, (ast.List, ast.Tuple)):
-            vals = [self.eval(x, env, m) for x in e.elts]
+            vals = []
+            for x in e.elts:
+                if isinstance(x, ast.Starred):
+                    vals.extend(self.eval(x.value, env, m))
+                else:
+                    vals.append(self.eval(x, env, m))
             return vals if isinstance(e, ast.List) else tuple(vals)
         if isinstance(e, ast.Dict):
             return {self._hashable(self.eval(k, env, m)): self.eval(v, env, m) for k, v in zip(e.keys, e.values)}
@@ -414,7 +419,21 @@ class Interp:
         if isinstance(e, ast.Call):
             return self.call(e, env, m)
         if isinstance(e, ast.JoinedStr):
-            return "<fstring>"
+            parts = []
+            for v in e.values:
+                if isinstance(v, ast.Constant):
+                    parts.append(str(v.value))
+                elif isinstance(v, ast.FormattedValue) and v.format_spec is None and v.conversion in (-1, 115):
+                    try:
+                        x = self.eval(v.value, env, m)
+                    except (AnalysisError, EvalRaise):
+                        return "<fstring>"
+                    if not isinstance(x, (int, str)) or isinstance(x, bool):
+                        return "<fstring>"  # text of an object: only used in messages
+                    parts.append(str(x))
+                else:
+                    return "<fstring>"
+            return "".join(parts)
         if isinstance(e, (ast.ListComp, ast.GeneratorExp)):
             if len(e.generators) != 1:
                 raise AnalysisError("nested comprehension")
@@ -746,6 +765,10 @@ class Interp:
 
     def method(self, o: Obj, name, args, kwargs, node):
         if o.kind == "self":
+            if name in getattr(self.sc, "method_overrides", {}):
+                return self.sc.method_overrides[name](o, *args, **kwargs)  # a method the caller models itself (receives the object)
+            if name in self.sc.overrides:
+                return self.sc.overrides[name](*args, **kwargs)  # a method the caller models itself
             # modelled state accessors of the transpiler
             if name == "get_reg_value":
                 reg = args[0] if args else kwargs.get("reg")
